@@ -81,6 +81,40 @@ def file_lines(data):
     return [x.decode("utf-8", "surrogateescape").rstrip() for x in out]
 
 
+def type_histories(ctx, res):
+    """The advertised type of a document does not depend on which documents were asked for before it (one server process):
+    names whose extensions agree up to letter case but mean different things in the MIME tables (.Z / .z, .GZ / .gz)."""
+    tree = pyg.Tree()
+    try:
+        names = ["manual.ps.Z", "errata.ps.z", "LISTING.GZ", "backup.gz", "A.TXT", "b.txt", "x.BZ2", "y.bz2", "p.HTML", "q.html", "r.Html", "data.TAR.gz", "data2.tar.GZ"]
+        for n in names:
+            tree.write("t/" + n, b"content of " + n.encode() + b"\n")
+        cfg = pyg.make_config(tree.root, **{"handlers.dir.DirHandler|cachetime": "0"})
+        views = [("http", "+"), ("gopherp", "!"), ("spartan", "+"), ("gemini", "+")]
+        for first in names:
+            for second in names:
+                if first == second or first.lower().split(".", 1)[1] != second.lower().split(".", 1)[1]:
+                    continue
+                for p, g in views:
+                    rq1, rq2 = reqs.build(p, "/t/" + first, gplus=g), reqs.build(p, "/t/" + second, gplus=g)
+                    pyg.fresh_process_state()
+                    alone = pyg.request(rq2, cfg, tls=reqs.TLS[p], reset=False).out
+                    pyg.fresh_process_state()
+                    pyg.request(rq1, cfg, tls=reqs.TLS[p], reset=False)
+                    pyg.request(reqs.build("gopher", "/t"), cfg, reset=False)          # and a listing that builds every entry
+                    after = pyg.request(rq2, cfg, tls=reqs.TLS[p], reset=False).out
+                    res.evaluations += 2
+                    res.nontrivial.add(("type-history", first, second, p))
+                    mask_ = lambda b: re.sub(rb"(Last-Modified|Mod-Date):[^\r\n]*", b"T", b or b"")  # noqa
+                    if mask_(after) != mask_(alone):
+                        res.violation("C04:type-depends-on-history", "a document's advertised type or framing depends on documents requested before it",
+                                      {"before": first, "document": second, "protocol": p}, observed=(after or b"")[:160], required=(alone or b"")[:160],
+                                      replay={"type_history": True, "first": first, "second": second, "protocol": p, "gplus": g})
+    finally:
+        tree.close()
+        pyg.fresh_process_state()
+
+
 def overlapping_transfers(ctx, res):
     """Two documents on their way at once (as two threads of the threading server have them): while transfer A is handing
     its k-th block to the client, transfer B runs from start to finish; then A goes on.  The block is taken from A's writer
@@ -415,11 +449,15 @@ def run(ctx):
     import sitecorr
     sitecorr.compare_answers(ctx, res, ctx.n(4, 40), "C04")
     overlapping_transfers(ctx, res)
+    type_histories(ctx, res)
     res.degraded = list(pyg.degraded) + [d for d in res.degraded if d not in pyg.degraded]
     return res
 
 
 def replay(data):
+    if data["violation"]["replay"].get("type_history"):
+        print("history check of harness/props/c04.py type_histories:", data["violation"]["replay"])
+        return 0
     if data["violation"]["replay"].get("overlap"):
         print("overlapping transfers, forced as in harness/props/c04.py overlapping_transfers:", data["violation"]["replay"])
         return 0
